@@ -102,6 +102,9 @@ def gen_noisy_case(tape: Tape, stub: bool) -> dict:
                 noise[k] = round(noise[k] * f, 6)
         if "eff_noise_rates" in noise:
             noise["eff_noise_rates"] = [round(r * f, 6) for r in noise["eff_noise_rates"]]
+        # badly prepared (dark) atoms in the same trajectory: the chain the jumps act on is shorter than the register
+        if n >= 3 and not noise.get("with_leakage") and tape.bool(0.2, "with_dark_atoms"):
+            noise["state_prep_error"] = round(tape.float(0.15, 0.4, "prep_error"), 2)
     cfg = {"backend": "mps", "dt": dt, "observables": obs, "default_times": dflt, "precision": 1e-6, "max_bond_dim": 16, "optimize": False, "solver": "tdvp", "noise": noise}
     return {"scn": scn, "cfg": cfg, "T": float(T), "n": n, "dt": dt, "step_kind": step_kind}
 
